@@ -269,7 +269,15 @@ pub fn builds(run: &Run) -> Vec<Build> {
     // sanity: the canonical form of what was built is the canonical form of the recipe
     for b in &all {
         if let Origin::Recipe(r) = &b.origin {
-            assert_eq!(r.canon(), b.canon, "harness: canon(build(r)) != canon(r) for {}", r.show());
+            if r.canon() != b.canon {
+                // e.g. a set that swallowed a semantically different element, because == or the
+                // hash conflates them
+                run.violation(
+                    &format!("{} has the canonical form {} but was built from the recipe {} (a container lost or conflated an element)", b.describe(), b.canon.show(), r.canon().show()),
+                    json!({"op": "eq_pair", "a": b.to_json(), "b": b.to_json(), "note": "build differs from its recipe"}),
+                    &[],
+                );
+            }
         }
     }
     let mut ids: HashMap<R, usize> = HashMap::new();
